@@ -219,7 +219,7 @@ def check_against_plan(case, plan, resp, rt, events, strict_calls=True):
                 if err.get("message") != e.tf[0] or err.get("extensions") != e.tf[1]:
                     out.append(V("library_error_not_preserved", "expected message %r extensions %r, got %r / %r" % (
                         e.tf[0], e.tf[1], err.get("message"), err.get("extensions"))))
-            elif e.token and e.kind in ("raise", "exception_value") and e.token not in str(err.get("message")):
+            elif e.token and e.kind in ("raise", "exception_value") and e.token not in str(err.get("message")):  # not for raise_odd
                 out.append(V("error_misattributed", "error at %r does not carry the fault's token %s: %r" % (
                     list(p), e.token, err.get("message"))))
     for q in visible_nulls(plan):
